@@ -9,7 +9,7 @@ import tempfile
 
 from run import Broken, Violation
 
-GEN = ["Router"]
+GEN = ["Router", "PyRouter"]
 RULE = ("paths = stem x '.' x extension x case variant (+ compound, dot-only, URL-like, unicode stems), "
         "extensions drawn from router tables, README, mimetypes.types_map; x mimetypes configs "
         "(default / emptied / hostile add_type). distinct = distinct (lowered path, mime answer) pairs; "
